@@ -23,7 +23,7 @@ LEVEL = 'fault_enumeration'
 RULE = ("failure kinds {wrong output, exception in the doctest, in a module function it calls, in a helper defined by an "
         "earlier part shorter / longer than the failing part, compile-only errors (return / break outside, duplicate "
         "argument), a __repr__ that raises, traceback want on non-raising code, NameError, assertion, malformed directive "
-        "inline / block, wrong output on the second want, exception inside a coroutine, import error of the module under "
+        "inline / block / noticed only when the part's directives are extracted at run time, wrong output on the second want, exception inside a coroutine, import error of the module under "
         "test} x position of the failing doctest {first, middle, last} x shape {bare, after wants, after multi-line "
         "statements, after helper definitions} x verbosity 0..3, every combination once per tier pass (quick: one context, "
         "thorough: 8), each through DocTest.run and runner.doctest_module; a sample through the CLI.  All cases are "
@@ -52,6 +52,9 @@ KINDS = {
                   '>>> R()  # FAILMARK', 'something'], None),
     'bad_directive': (['>>> x = 1  # xdoctest: +REQUIRES(notatag) FAILMARK'], 'Exception'),
     'bad_directive_block': (['>>> # xdoctest: +REQUIRES(notatag) FAILMARK', '>>> x = 1'], 'Exception'),
+    # unbalanced parentheses in a directive comment that the parser does not look at (extra blanks after the prompt):
+    # the directive is extracted lazily, inside run()
+    'bad_directive_lazy': (['>>>   # xdoctest: +REQUIRES(module:zz FAILMARK', '>>> x = 1'], 'Exception'),
     'nameerror': (['>>> undefined_name_zz  # FAILMARK'], 'NameError'),
     'assert': (['>>> assert 1 == 2, "FAILMARK"'], 'AssertionError'),
     'traceback_want_noraise': (['>>> x = 1', 'Traceback (most recent call last): FAILMARK', 'ValueError: nope'],
@@ -106,7 +109,10 @@ def gen_module(rng, uid, kind, pos, shape):
         marker = 'FAIL%sx%d' % (uid, k)
         if k == failing:
             kd = kind
-            L += shape_lines(rng, shape)
+            if kind != 'bad_directive_lazy':
+                # (the lazily extracted directive must open the doctest: anywhere else the parser reads it first,
+                # the docstring is rejected at collection and C14 applies instead)
+                L += shape_lines(rng, shape)
             if kind != 'import_error':
                 L += [ln.replace('FAILMARK', marker) for ln in KINDS[kind][0]]
             else:
